@@ -8,6 +8,7 @@ package main
 import (
 	"encoding/json"
 	"fmt"
+	"os"
 	"runtime"
 	"sort"
 	"strconv"
@@ -36,7 +37,7 @@ type ST struct {
 }
 
 type Case struct {
-	Kind  string `json:"kind"` // ops | fan | unw | raw
+	Kind  string `json:"kind"` // ops | fan | conc | race | unw | raw
 	Ops   []Op   `json:"ops,omitempty"`
 	Extra []ST   `json:"extra,omitempty"` // further (session,type) pairs whose subscriber lists are watched
 	S     string `json:"s,omitempty"`     // unw
@@ -49,6 +50,9 @@ type Case struct {
 	Sched   []int      `json:"sched,omitempty"` // the choices among the enabled feed / receive actions
 	Cap     int        `json:"cap,omitempty"`   // capacity of the subscriber channels (0 = unbuffered)
 	Procs   int        `json:"procs,omitempty"` // GOMAXPROCS during the case (0 = unchanged)
+	// conc / race (see conc.go): one sequential program per goroutine, all on one Libp2pCommunication
+	Threads [][]Op `json:"threads,omitempty"` // ops: sub (C owned by the thread) | unsub (K-th sub of THIS thread) | get | deliver
+	Round   int    `json:"round,omitempty"`   // the threads meet at a barrier every Round operations (0 = only at the start)
 }
 
 type OpObs struct {
@@ -75,6 +79,14 @@ type Obs struct {
 	Recv  [][]RMsg `json:"recv,omitempty"`
 	Lost  int      `json:"lost,omitempty"`  // scheduled receipts that never arrived (deadline)
 	Stuck int      `json:"stuck,omitempty"` // decoder / delivery goroutines that did not finish (deadline)
+	// conc / race
+	Conc      [][]COp `json:"conc,omitempty"`       // per thread, per operation
+	Final     [][]int `json:"final,omitempty"`      // the table when all threads have finished, per universe pair
+	Crash     string  `json:"crash,omitempty"`      // the child process died: first line of the fatal error
+	Races     int     `json:"races,omitempty"`      // race detector reports involving the repo's comm packages
+	RaceNote  string  `json:"race_note,omitempty"`  // the first of them
+	RaceBuilt bool    `json:"race_built,omitempty"` // the child was the -race build
+	Note      string  `json:"note,omitempty"`
 }
 
 const badOffset = 1000000 // a receipt whose content is not the delivered message
@@ -201,6 +213,35 @@ func runOps(c Case) (Obs, bool) {
 	return obs, repeated
 }
 
+// guarded runs a sequential case with a watchdog: a table operation that never returns (a changed
+// implementation that keeps the mutex on some path) is reported as this case's failure after 30 s
+// instead of hanging the runner until the orchestrator's timeout.
+func guarded(f func() (Obs, bool)) (Obs, bool) {
+	type res struct {
+		o   Obs
+		rep bool
+		p   interface{}
+	}
+	ch := make(chan res, 1)
+	go func() {
+		var r res
+		defer func() {
+			r.p = recover()
+			ch <- r
+		}()
+		r.o, r.rep = f()
+	}()
+	select {
+	case r := <-ch:
+		if r.p != nil {
+			panic(r.p)
+		}
+		return r.o, r.rep
+	case <-time.After(30 * time.Second):
+		panic("a subscription table operation did not return within 30 s (blocked)")
+	}
+}
+
 func run(c Case) Obs {
 	switch c.Kind {
 	case "ops", "fan":
@@ -212,7 +253,7 @@ func run(c Case) Obs {
 			if c.Kind == "fan" {
 				o, rep = runFan(c)
 			} else {
-				o, rep = runOps(c)
+				o, rep = guarded(func() (Obs, bool) { return runOps(c) })
 			}
 			if !rep {
 				return o
@@ -220,6 +261,8 @@ func run(c Case) Obs {
 		}
 		o.Repeated = true
 		return o
+	case "conc", "race":
+		return runConc(c)
 	case "unw", "raw":
 		id := comm.SubscriptionID(c.ID)
 		if c.Kind == "unw" {
@@ -308,9 +351,9 @@ func genOps(r *vgen.Rng, maxOps int) Case {
 
 func gen(r *vgen.Rng, tier string) []Case {
 	var out []Case
-	nlists, maxOps, nraw, nfan := 260, 40, 150, 320
+	nlists, maxOps, nraw, nfan, nconc, nrace := 260, 40, 150, 320, 40, 6
 	if tier == "thorough" {
-		nlists, maxOps, nraw, nfan = 4000, 60, 3000, 6000
+		nlists, maxOps, nraw, nfan, nconc, nrace = 4000, 60, 3000, 6000, 600, 60
 	}
 	// Unwrap of built ids: every family member x boundary types x boundary unique components
 	for _, fam := range families {
@@ -343,7 +386,25 @@ func gen(r *vgen.Rng, tier string) []Case {
 	for i := 0; i < nfan; i++ {
 		out = append(out, genFan(r))
 	}
-	return out
+	// concurrent cases (conc.go) are spread evenly over the list: they are the expensive ones to
+	// evaluate, and the shards are evaluated in parallel
+	var cc []Case
+	for i := 0; i < nrace; i++ {
+		cc = append(cc, genConc(r, "race"))
+	}
+	for i := 0; i < nconc; i++ {
+		cc = append(cc, genConc(r, "conc"))
+	}
+	var mixed []Case
+	step := len(out)/len(cc) + 1
+	for i, c := range out {
+		if i%step == 0 && len(cc) > 0 {
+			mixed = append(mixed, cc[0])
+			cc = cc[1:]
+		}
+		mixed = append(mixed, c)
+	}
+	return append(mixed, cc...)
 }
 
 // ---- printing ------------------------------------------------------------------------------------
@@ -367,6 +428,8 @@ func coq(c Case, o Obs) string {
 		return "Raw " + vgen.Str(c.ID) + " " + resCoq(o)
 	case "fan":
 		return fanCoq(c, o)
+	case "conc", "race":
+		return concCoq(c, o)
 	}
 	uni := vgen.ListOf(o.Universe, func(p ST) string { return vgen.Pair(vgen.Str(p.S), vgen.N(uint64(p.T))) })
 	ops := make([]string, len(c.Ops))
@@ -400,6 +463,10 @@ func hyphen(c Case) bool {
 
 func main() {
 	zerolog.SetGlobalLevel(zerolog.Disabled)
+	if os.Getenv(childEnv) != "" {
+		concChildMain()
+		return
+	}
 	vgen.Main(vgen.Spec[Case, Obs]{
 		Property:  "C12",
 		RunModule: "C12",
@@ -414,6 +481,9 @@ func main() {
 			if c.Kind == "fan" {
 				return "fan-" + c.Mode
 			}
+			if c.Kind == "conc" || c.Kind == "race" {
+				return c.Kind
+			}
 			if hyphen(c) {
 				return c.Kind + "-hyphen"
 			}
@@ -427,6 +497,8 @@ func main() {
 				return strings.Count(c.ID, "-") >= 2
 			case "fan":
 				return fanNonTrivial(c)
+			case "conc", "race":
+				return concNonTrivial(c)
 			}
 			nsub, other := 0, 0
 			for _, op := range c.Ops {
@@ -438,6 +510,6 @@ func main() {
 			}
 			return nsub >= 2 && other >= 1
 		},
-		Rule: "Unwrap on ids built for every session-family member x boundary types x boundary unique components, Unwrap on random/malformed strings, and random operation lists (sub/unsub/deliver, 1..40 ops quick, 1..60 thorough) over 1..5 sessions of a family of mutually confusable ids (prefixes, trailing/leading/double hyphens, empty, hex digests, production-style message ids) and 1..3 declared message types; fan cases: a table of 1..9 subscriptions / cancellations (several subscribers per pair, channels holding several subscriptions), then 1..3 inbound streams of 1..6 messages each (different and equal sessions / types / payloads) handed to ProcessMessagesFromStream back to back, one per Read or in random chunks, with unbuffered / capacity-1 / large subscriber channels read late (nobody reads before everything was decoded), interleaved or promptly in a random order, a third of them under GOMAXPROCS(1); distinct = distinct input JSON; non-trivial = every built-id Unwrap, malformed ids with at least two separators, operation lists with at least two subscriptions and one cancellation or delivery, fan cases with a subscription and at least two messages",
+		Rule: "Unwrap on ids built for every session-family member x boundary types x boundary unique components, Unwrap on random/malformed strings, and random operation lists (sub/unsub/deliver, 1..40 ops quick, 1..60 thorough) over 1..5 sessions of a family of mutually confusable ids (prefixes, trailing/leading/double hyphens, empty, hex digests, production-style message ids) and 1..3 declared message types; fan cases: a table of 1..9 subscriptions / cancellations (several subscribers per pair, channels holding several subscriptions), then 1..3 inbound streams of 1..6 messages each (different and equal sessions / types / payloads) handed to ProcessMessagesFromStream back to back, one per Read or in random chunks, with unbuffered / capacity-1 / large subscriber channels read late (nobody reads before everything was decoded), interleaved or promptly in a random order, a third of them under GOMAXPROCS(1); conc / race cases: 8..16 goroutines (race: 8..12) x 2..5 rounds x 2..5 operations (subscribe own channel, cancel own subscription - possibly cancelled before -, GetSubscribers, deliver one message through ProcessMessagesFromStream) on one Libp2pCommunication held by value in interfaces, over a session shared by all, one session created per round, sessions of the thread's own and of other threads, 1..3 declared message types of a family of hyphenated ids; the goroutines enter every round together (spinning barrier) and start it with a common action drawn per round: all subscribe to the pair created in this round, all cancel what they subscribed at the previous barrier, a mix of subscribe / cancel / lookup of one pair, or nothing in common; a fifth of the cases under GOMAXPROCS 2 / 4 / 8; each case in a child process, race cases in a child built with -race; 4 fixed corpus cases (subscribe-lookup-cancel storms on one pair; subscribe at one barrier, cancel at the next); distinct = distinct input JSON; non-trivial = every built-id Unwrap, malformed ids with at least two separators, operation lists with at least two subscriptions and one cancellation or delivery, fan cases with a subscription and at least two messages, concurrent cases with at least two threads and eight operations",
 	})
 }
